@@ -374,12 +374,49 @@ def run_book(ctx, bi):
         r.sample({'formulas': [f for a, f, m in forms[:10]], 'laws': [[l[0], l[5], list(l[6])] for l in laws[:3]]})
 
 
+def run_tall(ctx):
+    """the folds over areas of tens of thousands of rows, handed to the generated class's own fold functions (the cell matrix of an area
+    is a list of rows): the right value, and a time that grows with the size of the area, not with its square.  Verdict by growth
+    between two sizes (linear 2x, quadratic 4x) on a time that is long in absolute terms; slowness alone is inconclusive."""
+    import time
+    from .. import pipeline
+    r, rng = ctx.r, ctx.rng
+    book = pipeline.Book(wbspec.spec(wbspec.sheet('S', {'A1': 1, 'A2': 2, 'B1': '=SUM(A1:A2)', 'B2': '=MAX(A1:A2)', 'B3': '=COUNT(A1:A2)'})), ctx.workdir, name='tall')
+    if book.cls is None:
+        r.violation('translate', {'spec': 'tall'}, book.whole.brief(), 'a loadable class')
+        return
+    inst = book.cls()
+    n1, n2 = (60000, 120000) if ctx.tier == 'quick' else (150000, 300000)
+    times = {}
+    for n in (n1, n2):
+        rows = [[i % 97, 'x' if i % 5 == 0 else i % 3] for i in range(n)]
+        want_sum = sum(i % 97 for i in range(n)) + sum(i % 3 for i in range(n) if i % 5)
+        t0 = time.perf_counter()
+        flat = pipeline.guarded(lambda: inst._flatten_list(rows), 'evaluate')
+        got = pipeline.guarded(lambda: inst._sum(inst._flatten_list([rows])), 'evaluate')
+        times[n] = time.perf_counter() - t0
+        r.ev(2)
+        r.count('tall_area_folds')
+        r.nt(('tall', n))
+        if not (flat.ok and len(flat.value) == 2 * n):
+            report(r, ID, None, {'formula': f'_flatten_list of {n} rows x 2', 'rows': n}, flat.brief() if not flat.ok else len(flat.value), 2 * n, monitor='tall-area')
+        if not (got.ok and got.value == want_sum):
+            report(r, ID, None, {'formula': f'SUM over {n} rows x 2 (every fifth cell of the second column a text)', 'rows': n}, got.brief(), want_sum, monitor='tall-area')
+    r.counters['tall_area_slowest_ms'] = int(times[n2] * 1000)
+    if times[n2] > 4.0 and times[n2] > 3.2 * max(times[n1], 0.05):
+        report(r, ID, None, {'formula': 'SUM over an area of n rows', 'rows': [n1, n2]}, {'seconds_n': round(times[n1], 3), 'seconds_2n': round(times[n2], 3)},
+               'time that grows about linearly with the number of rows', monitor='fold-time-superlinear')
+    r.sample({'tall_areas': [n1, n2], 'seconds': [round(times[n1], 3), round(times[n2], 3)]})
+
+
 def run_shard(shard, ctx):
     if isinstance(shard, dict) and 'mixed' in shard:
         from ..mixed import run_mixed
         return run_mixed(ctx, ID, shard['n'])
     if 'replay' in shard:
         return replay_case(ctx, ID, shard['replay'], exact=False)
+    if 'tall' in shard:
+        return run_tall(ctx)
     for i in range(shard['n']):
         run_book(ctx, shard['k'] * 1000 + i)
 
@@ -393,4 +430,4 @@ def finish(r, tier, seed):
 
 def plan(tier, seed):
     # 'mixed': nests over the whole function set that use at least one function of this property (vf/mixed.py)
-    return _plan(tier, seed) + [{'mixed': k, 'n': 3 if tier == 'quick' else 60} for k in range(3 if tier == 'quick' else 8)]
+    return _plan(tier, seed) + [{'mixed': k, 'n': 3 if tier == 'quick' else 60} for k in range(3 if tier == 'quick' else 8)] + [{'tall': 1}]
